@@ -17,7 +17,22 @@ def lhenum_job(shard, nshards, exe, jobs):
             continue
         e = dict(os.environ)
         e.update(core.ASAN_ENV)
-        r = subprocess.run([exe, str(size), str(hk), str(ln), str(sub), str(nsub)], stdout=subprocess.PIPE, stderr=subprocess.PIPE, text=True, env=e, timeout=3000)
+        r = None
+        for attempt in range(2):  # a watchdog expiry is re-run once before it is reported as a hang
+            try:
+                r = subprocess.run([exe, str(size), str(hk), str(ln), str(sub), str(nsub)], stdout=subprocess.PIPE, stderr=subprocess.PIPE, text=True, env=e, timeout=240 if ln <= 6 else 2400)
+                break
+            except subprocess.TimeoutExpired:
+                r = None
+        if r is None:
+            sh.violation("C06/enum/hang", "small-scope enumeration did not terminate twice (size=%d hash=%d len<=%d): an lh_table operation does not return" % (size, hk, ln),
+                         {"cmd": "%s %d %d %d %d %d" % (exe, size, hk, ln, sub, nsub)})
+            continue
+        if r.returncode == 4:
+            w = re.search(r"WITNESS hang after step \d+: (.*)", r.stdout)
+            sh.violation("C06/enum/hang", "lh_table(size=%d, hash kind %d): an operation does not return: %s" % (size, hk, w.group(0) if w else r.stdout[-200:]),
+                         {"cmd": "%s %d %d %d %d %d" % (exe, size, hk, ln, sub, nsub), "stdout": r.stdout[-500:]})
+            continue
         if r.returncode != 0:
             kind = "asan" if "AddressSanitizer" in r.stderr else "ubsan" if "runtime error" in r.stderr else "exit%d" % r.returncode
             sh.violation("C06/lhenum-crash/%s" % kind, "small-scope enumeration died (size=%d hash=%d): %s" % (size, hk, r.stderr[-400:]),
@@ -145,10 +160,15 @@ def churn_shard(shard, nshards, seed, tier, exe, nhist):
             cid = "%d.%d.%d" % (shard, rnd, i)
             cases.append((cid, cmds))
             meta[cid] = (plan, uni)
-        results, crashes = core.run_script(exe, cases, env=env, tag="c06")
+        results, crashes = core.run_script(exe, cases, env=env, tag="c06", timeout=300 if tier == "quick" else 3000)
         cmdmap = dict(cases)
         for cr in crashes:
             kind, frame = cr.summary()
+            if cr.kind == "hang":
+                i = min(len(cr.partial), len(cmdmap[cr.cid]) - 1)
+                sh.violation("C06/hang/%s" % cmdmap[cr.cid][i].split()[0], "object operation did not return (re-run once in isolation): command #%d %s" % (i, cmdmap[cr.cid][i][:80]),
+                             {"driver": "jcdrv", "variant": "asan", "env": env, "script": cmdmap[cr.cid][:i + 1]})
+                continue
             sh.violation("C06/%s/%s" % (kind, frame), "memory error in an object operation (%s)" % kind, {"driver": "jcdrv", "variant": "asan", "env": env, "script": cmdmap[cr.cid], "stderr": cr.stderr[-2500:]})
         for cid, lines in results.items():
             plan, uni = meta[cid]
